@@ -214,3 +214,120 @@ fn stats_concurrent(sc: &Value) -> Value {
     }
     json!({"violations": viol})
 }
+
+/// C12: many threads emitting through one shared buffered sink; the datagram stream must still be whole lines,
+/// every acknowledged metric present exactly once, each thread's metrics in its program order.
+pub fn c12_stress(sc: &Value) -> Value {
+    use cadence::BufferedUnixMetricSink;
+    use std::collections::HashMap;
+    let threads = sc["threads"].as_u64().unwrap_or(8) as usize;
+    let mut viol: Vec<Value> = vec![];
+    for round in 0..6 {
+        let dir = temp_dir("c12");
+        let path = dir.join("s.sock");
+        let server = UnixDatagram::bind(&path).unwrap();
+        server.set_read_timeout(Some(Duration::from_millis(400))).unwrap();
+        let cap = [64usize, 50, 33, 128, 47, 96][round % 6];
+        let sink = Arc::new(BufferedUnixMetricSink::with_capacity(&path, UnixDatagram::unbound().unwrap(), cap));
+        let stop = Arc::new(std::sync::atomic::AtomicBool::new(false));
+        let st2 = stop.clone();
+        let reader = std::thread::spawn(move || {
+            let mut got: Vec<Vec<u8>> = vec![];
+            let mut b = [0u8; 65536];
+            loop {
+                match server.recv(&mut b) {
+                    Ok(k) => got.push(b[..k].to_vec()),
+                    Err(_) => {
+                        if st2.load(std::sync::atomic::Ordering::SeqCst) {
+                            break;
+                        }
+                    }
+                }
+            }
+            got
+        });
+        let per = 400usize;
+        let mut hs = vec![];
+        for t in 0..threads {
+            let s = sink.clone();
+            hs.push(std::thread::spawn(move || {
+                let mut acked = vec![];
+                let mut panicked = false;
+                for i in 0..per {
+                    // lengths vary so that exact fits happen
+                    let pad: String = std::iter::repeat('x').take((i * 7 + t * 3) % 23).collect();
+                    let m = format!("t{}.n{}{}:1|c", t, i, pad);
+                    let r = std::panic::catch_unwind(std::panic::AssertUnwindSafe(|| s.emit(&m)));
+                    match r {
+                        Ok(Ok(_)) => acked.push(m),
+                        Ok(Err(_)) => {}
+                        Err(_) => {
+                            panicked = true;
+                            break;
+                        }
+                    }
+                }
+                (acked, panicked)
+            }));
+        }
+        let mut acked_all: Vec<Vec<String>> = vec![];
+        let mut any_panic = false;
+        for h in hs {
+            let (a, p) = h.join().unwrap();
+            acked_all.push(a);
+            any_panic |= p;
+        }
+        let fl = std::panic::catch_unwind(std::panic::AssertUnwindSafe(|| sink.flush()));
+        std::thread::sleep(Duration::from_millis(300));
+        stop.store(true, std::sync::atomic::Ordering::SeqCst);
+        let got = reader.join().unwrap();
+        let _ = std::fs::remove_dir_all(&dir);
+        if any_panic || fl.is_err() {
+            viol.push(json!({"prop": "C12", "clause": "no-panic", "detail": format!("round {} (capacity {}): an emit / flush panicked under concurrent use", round, cap)}));
+        }
+        let mut seen: HashMap<String, usize> = HashMap::new();
+        let mut order: Vec<String> = vec![];
+        for d in got.iter() {
+            let text = String::from_utf8_lossy(d).to_string();
+            let whole = text.ends_with('\n') || !text.contains('\n');
+            let lines: Vec<&str> = text.split('\n').collect();
+            let bad_line = lines.iter().any(|l| !l.is_empty() && !(l.starts_with('t') && l.ends_with(":1|c")));
+            if !whole || bad_line || (text.contains('\n') && d.len() > cap) || text.starts_with('\n') {
+                viol.push(json!({"prop": "C12", "clause": "line-atomic", "detail": format!("round {} (capacity {}): datagram {:?} is not a run of whole lines within the capacity", round, cap, text)}));
+                break;
+            }
+            for l in lines {
+                if !l.is_empty() {
+                    *seen.entry(l.to_string()).or_insert(0) += 1;
+                    order.push(l.to_string());
+                }
+            }
+        }
+        if viol.is_empty() {
+            for (t, acked) in acked_all.iter().enumerate() {
+                for m in acked {
+                    if seen.get(m).copied().unwrap_or(0) != 1 {
+                        viol.push(json!({"prop": "C12", "clause": "acknowledged-exactly-once", "detail": format!("round {}: metric {:?} acknowledged to thread {} appears {} times on the wire", round, m, t, seen.get(m).copied().unwrap_or(0))}));
+                        break;
+                    }
+                }
+                // only metrics that fit the buffer leave in program order (an oversized one is written during its own emit)
+                let mine: Vec<&String> = order.iter().filter(|l| l.starts_with(&format!("t{}.", t)) && l.len() + 1 <= cap).collect();
+                let idx: Vec<usize> = mine
+                    .iter()
+                    .filter_map(|l| l.split(".n").nth(1).map(|r| r.chars().take_while(|c| c.is_ascii_digit()).collect::<String>()).and_then(|x| x.parse().ok()))
+                    .collect();
+                if idx.windows(2).any(|w| w[0] > w[1]) {
+                    viol.push(json!({"prop": "C12", "clause": "program-order", "detail": format!("round {}: thread {}'s metrics left out of order", round, t)}));
+                }
+                if !viol.is_empty() {
+                    break;
+                }
+            }
+        }
+        if !viol.is_empty() {
+            break;
+        }
+    }
+    json!({"violations": viol})
+}
